@@ -25,6 +25,7 @@ struct DeflCase {
     Csr<double> A; LD dA;
     std::vector<double> Z; // [k x n]
     std::string family; int zmode = 0;
+    int nonsym = 0; // 0 symmetric (SPD M-matrix), 1 M + skew convection, 2 M + skew convection + diagonal lift
     std::string solver; double tol = 1e-8;
 };
 
@@ -49,6 +50,23 @@ static DeflCase gen_defl(Tape &t) {
     d.solver = sv[t.u(0, 6)];
     static const double tols[] = {1e-8, 1e-6, 1e-10, 1e-4};
     d.tol = tols[t.u(0, 3)];
+    // non-symmetric variants (convection-diffusion style): A = M + S (+ D) with S skew-symmetric (central convection,
+    // s_ij = -s_ji = c_e) and optionally D >= 0 diagonal (upwind-like lift).  The symmetric part stays the SPD matrix M (+ D), so
+    // x^T A x > 0: A is nonsingular and Z^T A Z is nonsingular (and non-symmetric) for every full-rank Z.
+    d.nonsym = static_cast<int>(t.u(0, 2));
+    if (d.nonsym) {
+        std::vector<std::map<ptrdiff_t, double>> rows(d.n);
+        for (ptrdiff_t i = 0; i < d.n; ++i) for (ptrdiff_t j = d.A.ptr[i]; j < d.A.ptr[i + 1]; ++j) rows[i][d.A.col[j]] = d.A.val[j];
+        double pe = t.logu(0.1, 3.0);
+        for (auto &e : g.edges) {
+            double c = pe * std::abs(rows[e.first][e.second]) * t.uni(0.2, 1.0);
+            if (t.b()) c = -c;
+            rows[e.first][e.second] += c; rows[e.second][e.first] -= c;
+            if (d.nonsym == 2) { rows[e.first][e.first] += std::abs(c); rows[e.second][e.second] += std::abs(c); }
+        }
+        d.A = from_triplets<double>(d.n, d.n, rows);
+        d.dA = to_dense<ld>(d.A);
+    }
     return d;
 }
 
@@ -134,8 +152,14 @@ static void deflated_checks(Tape &t, Ctx &c, const DeflCase &d, const Obj &S, co
         std::vector<double> x0 = t.b() ? std::vector<double>(n, 0.0) : gen_vec(t, n, 2);
         amgcl::backend::numa_vector<double> F(f), X(x0);
         size_t iters; double resid;
-        if (variant == 0) std::tie(iters, resid) = S(F, X);
-        else std::tie(iters, resid) = S(std::tie(d.n, d.A.ptr, d.A.col, d.A.val), F, X);
+        try {
+            if (variant == 0) std::tie(iters, resid) = S(F, X);
+            else std::tie(iters, resid) = S(std::tie(d.n, d.A.ptr, d.A.col, d.A.val), F, X);
+        } catch (const std::runtime_error &e) { // documented breakdown exits of the BiCG-type methods (non-symmetric systems)
+            VF_REQUIRE(d.nonsym && (d.solver == "bicgstab" || d.solver == "bicgstabl" || d.solver == "idrs" || d.solver == "cg"), d.solver << " threw on a " << (d.nonsym ? "non-symmetric" : "SPD") << " system: " << e.what());
+            c.label(std::string("solve:threw:") + e.what());
+            continue;
+        }
         std::vector<double> x(X.data(), X.data() + n);
         long double tr = true_relres(d.A, f, x);
         // residual gap of recurrence-updated residuals: c u (iters+1) n (||A|| max||x_k|| + ||f||)/||f||; the iterates of the
@@ -143,7 +167,9 @@ static void deflated_checks(Tape &t, Ctx &c, const DeflCase &d, const Obj &S, co
         bool ok; LD Ai = inverse(d.dA, ok);
         ld xs = norminf(tolv(x)) + norminf(tolv(x0)) + norminf(matvec(Ai, tolv(f)));
         ld gap = 16 * U * static_cast<ld>(iters + 2) * static_cast<ld>(n) * (norminf(d.dA) * xs + norminf(tolv(f))) * std::sqrt(static_cast<ld>(n)) / nf;
-        VF_REQUIRE(std::isfinite(resid), d.solver << ": non-finite residual reported on an SPD system");
+        bool cg_nonsym = d.solver == "cg" && d.nonsym; // CG is not defined for non-symmetric systems: may diverge, nothing is claimed
+        if (!d.nonsym || (d.solver == "gmres" || d.solver == "fgmres" || d.solver == "lgmres"))
+            VF_REQUIRE(std::isfinite(resid), d.solver << ": non-finite residual reported on a positive definite system");
         // "returns the solution of the original system": the true residual on the ORIGINAL system is what the solver claims.
         //  * gmres, fgmres, lgmres recompute the residual before they return: held to the reported value on both sides;
         //  * cg updates the residual by recurrence; its iterates are bounded through the monotone energy norm of the error,
@@ -156,7 +182,7 @@ static void deflated_checks(Tape &t, Ctx &c, const DeflCase &d, const Obj &S, co
         if (recomputed)
             VF_REQUIRE(std::abs(tr - static_cast<ld>(resid)) <= gap + 1e-3L * static_cast<ld>(resid),
                        d.solver << (variant ? " (A,f,x)" : " (f,x)") << ": reported relative residual " << resid << " but ||f - A x||/||f|| = " << static_cast<double>(tr) << " on the original system (iters " << iters << ", allowed gap " << static_cast<double>(gap) << ")");
-        else if (d.solver == "cg") {
+        else if (d.solver == "cg" && !cg_nonsym) {
             ld gcg = gap * std::sqrt(norminf(Ai) * norminf(d.dA));
             VF_REQUIRE(tr <= std::max<ld>(resid, d.tol) * (1 + 1e-3L) + gcg,
                        d.solver << (variant ? " (A,f,x)" : " (f,x)") << ": reported relative residual " << resid << " (tol " << d.tol << ") but ||f - A x||/||f|| = " << static_cast<double>(tr) << " on the original system (iters " << iters << ", allowed gap " << static_cast<double>(gcg) << ")");
@@ -168,9 +194,10 @@ static void deflated_checks(Tape &t, Ctx &c, const DeflCase &d, const Obj &S, co
 static void prop_deflated(Tape &t, Ctx &c) {
     DeflCase d = gen_defl(t);
     int pk = static_cast<int>(t.u(0, 2)); // 0 known linear preconditioner, 1 scaled identity, 2 real amg
-    c.desc << "deflated_solver n=" << d.n << " (" << d.family << ") nvec=" << d.k << " zmode=" << d.zmode << " solver=" << d.solver << " tol=" << d.tol << " precond=" << pk << " A=" << dump_small(d.A, 8);
+    c.desc << "deflated_solver n=" << d.n << " (" << d.family << (d.nonsym ? ",nonsym" + std::to_string(d.nonsym) : "") << ") nvec=" << d.k << " zmode=" << d.zmode << " solver=" << d.solver << " tol=" << d.tol << " precond=" << pk << " A=" << dump_small(d.A, 8);
     c.nontrivial = d.n > d.k && d.A.nnz() > d.n;
-    c.label("nvec=" + std::to_string(d.k)); c.label("solver:" + d.solver); c.label("zmode=" + std::to_string(d.zmode)); c.label("precond=" + std::to_string(pk));
+    c.label("nvec=" + std::to_string(d.k)); c.label("solver:" + d.solver);
+    c.label(d.nonsym ? (d.k >= 2 ? "nonsymmetric,nvec>=2" : "nonsymmetric,nvec=1") : "symmetric"); c.label("zmode=" + std::to_string(d.zmode)); c.label("precond=" + std::to_string(pk));
     boost::property_tree::ptree sp; sp.put("type", d.solver); sp.put("tol", d.tol); sp.put("maxiter", 200);
     if (d.solver == "idrs") sp.put("s", static_cast<unsigned>(std::min<ptrdiff_t>(4, d.n)));
     auto tup = std::tie(d.n, d.A.ptr, d.A.col, d.A.val);
